@@ -354,7 +354,45 @@ def r3_filters(ctx):
                   [c.name for c in narrow])
 
 
+def r4_edge_sources(ctx):
+    """the global edge view attributes every edge to the node whose bundle it was taken from: the iterator's source index and its
+    position in the sequence of edge bundles move in lockstep (one bundle consumed <=> index + 1)"""
+    ctx.set_rule('C19.R4')
+    P = ctx.P
+    f = ctx.anchor('<des::net::topology::EdgesIter as std::iter::Iterator>::next')
+    if not f:
+        return
+    ctx.touch(f)
+    bundle_fields = [fl['n'] for v in (P.adts.get('des::net::topology::EdgesIter') or {}).get('variants', []) for fl in v['fields'] if 'Vec<' in fl['ty'] and 'EdgeRaw' in fl['ty']]
+    idx_fields = [fl['n'] for v in (P.adts.get('des::net::topology::EdgesIter') or {}).get('variants', []) for fl in v['fields'] if fl['ty'] == 'usize']
+    if not (ctx.floor('bundle sequence field of EdgesIter', len(bundle_fields), 1) and ctx.floor('source index field of EdgesIter', len(idx_fields), 1)):
+        return
+    BF, IF = bundle_fields[0], idx_fields[0]
+    n = 0
+    for path, outcome, decs in fn_paths(ctx, f):
+        if outcome != 'return':
+            continue
+        effs = path_effects(f, path)
+        adv = [e for e in effs if e[0] == 'w' and e[2] == BF]
+        inc = [e for e in effs if e[0] == 'w' and e[2] == IF]
+        if not adv and not inc:
+            continue
+        n += 1
+        one = True
+        for e in adv:
+            v = peel(e[4]) if e[4] is not None else ('unknown',)
+            # the tail of split_first over the WHOLE remaining sequence, or `&seq[1..]`
+            tail = v[0] == 'field' and v[2] == '1' and any(x[0] == 'call' and x[1].endswith('::split_first') and x[2] and peel(x[2][0])[0] == 'field' and peel(x[2][0])[2] == BF for x in walk(v))
+            sl = any(x[0] == 'agg' and 'RangeFrom' in str(x[1]) and x[2] and x[2][0] == ('int', 1) for x in walk(v)) and not any(x[0] == 'call' and x[1].endswith('::position') for x in walk(v))
+            one = one and (tail or sl)
+        ok = len(adv) == len(inc) and all(e[1] == 'inc' for e in inc) and one
+        ctx.check(ok, 'source-index-lockstep', 'EdgesIter::next advances its source-node index by one exactly when it moves on by one edge bundle', f.where_path(path),
+                  {'bundle_advances': len(adv), 'index_steps': len(inc), 'by_one_bundle': one})
+    ctx.floor('bundle-advancing paths of EdgesIter::next', n, 1)
+
+
 def run(ctx):
+    r4_edge_sources(ctx)
     r1_worklists(ctx)
     r2_edge_provenance(ctx)
     r3_filters(ctx)
